@@ -1,23 +1,27 @@
 /-
-  Facts about the Spec of PostgreSQL's page checksum (Spec/PgChecksum.lean) that hold for EVERY base-offset table,
-  and the witness page of the open finding `C19-checksum-not-postgres`: a block on which the tool's own function
-  `computePageChecksum` gives 0.
+  The page checksum (C19): the model of the repaired `computePageChecksum` (fix 11 of /verif/fixes/block) IS the Spec's
+  `pg_checksum_page` on every 8192-byte page (`computePageChecksum_eq_pg`), facts about the Spec function (never 0, does
+  not depend on the stored field), the known values on the empty heap page, and — kept as a regression record — the
+  pre-fix function (`Orig.computePageChecksum`, the rotate/xor fold of the code before fix 11) with the witness page of
+  the finding `C19-checksum-not-postgres` on which it gave 0.
 -/
 import PgVerif.Spec.PgChecksum
 import PgVerif.Model.Checksum
 namespace PgVerif.Proofs.PgChecksum
 open PgVerif PgVerif.Spec.PgChecksum
 
-/-- `pg_checksum_page` is never 0 and fits in 16 bits, whatever the base-offset table -/
-theorem pgChecksumPage_range (offs : List Nat) (page : Bytes) (blkno : Nat) :
-    1 ≤ pgChecksumPage offs page blkno ∧ pgChecksumPage offs page blkno ≤ 65535 := by
+/-! ### facts about the Spec function -/
+
+/-- `pg_checksum_page` is never 0 and fits in 16 bits -/
+theorem pgChecksumPage_range (page : Bytes) (blkno : Nat) :
+    1 ≤ pgChecksumPage page blkno ∧ pgChecksumPage page blkno ≤ 65535 := by
   unfold pgChecksumPage
   omega
 
-/-- the stored checksum does not enter the computed one -/
-theorem pgChecksumPage_field (offs : List Nat) (page : Bytes) (blkno : Nat) (x y : UInt8) (h : 10 ≤ page.length) :
-    pgChecksumPage offs (page.take 8 ++ [x, y] ++ page.drop 10) blkno = pgChecksumPage offs page blkno := by
-  unfold pgChecksumPage clearChecksumField
+/-- overwriting bytes 8..9 does not change the page with the checksum field cleared -/
+theorem clearChecksumField_field (page : Bytes) (x y : UInt8) (h : 10 ≤ page.length) :
+    clearChecksumField (page.take 8 ++ [x, y] ++ page.drop 10) = clearChecksumField page := by
+  unfold clearChecksumField
   have h8 : (page.take 8).length = 8 := by simp only [List.length_take]; omega
   have e1 : (page.take 8 ++ [x, y] ++ page.drop 10).take 8 = page.take 8 := by
     rw [List.append_assoc, List.take_left' h8]
@@ -26,20 +30,254 @@ theorem pgChecksumPage_field (offs : List Nat) (page : Bytes) (blkno : Nat) (x y
     rw [List.drop_left' this]
   rw [e1, e2]
 
-/-- a non-new block whose stored checksum is 0 fails PostgreSQL's verification, for EVERY base-offset table -/
-theorem pageVerdict_stored_zero (offs : List Nat) (page : Bytes) (blkno : Nat)
+/-- the stored checksum does not enter the computed one -/
+theorem pgChecksumPage_field (page : Bytes) (blkno : Nat) (x y : UInt8) (h : 10 ≤ page.length) :
+    pgChecksumPage (page.take 8 ++ [x, y] ++ page.drop 10) blkno = pgChecksumPage page blkno := by
+  unfold pgChecksumPage
+  rw [clearChecksumField_field page x y h]
+
+theorem clearChecksumField_length (page : Bytes) (h : 10 ≤ page.length) :
+    (clearChecksumField page).length = page.length := by
+  unfold clearChecksumField
+  simp only [List.length_append, List.length_take, List.length_drop, List.length_cons, List.length_nil]
+  omega
+
+/-- a non-new block whose stored checksum is 0 fails PostgreSQL's verification -/
+theorem pageVerdict_stored_zero (page : Bytes) (blkno : Nat)
     (hz : allZero page = false) (hu : pdUpper page ≠ 0) (hs : pdChecksum page = 0) :
-    pageVerdict offs page blkno = some false := by
+    pageVerdict page blkno = some false := by
   unfold pageVerdict
-  have h1 := (pgChecksumPage_range offs page blkno).1
-  have : (pdChecksum page == pgChecksumPage offs page blkno) = false := by
+  have h1 := (pgChecksumPage_range page blkno).1
+  have : (pdChecksum page == pgChecksumPage page blkno) = false := by
     rw [hs]
-    cases hc : pgChecksumPage offs page blkno with
+    cases hc : pgChecksumPage page blkno with
     | zero => omega
     | succ n => rfl
   simp only [hz, Bool.false_eq_true, if_false, hu, this]
 
-/-! ### the witness of the open finding -/
+/-! ### the model of the repaired code against the Spec -/
+
+theorem words32_eq (bs : Bytes) : Model.words32 bs = words bs := by
+  induction bs using Model.words32.induct with
+  | case1 a b c d rest ih => simp only [Model.words32, words, ih]
+  | case2 bs h =>
+    rw [Model.words32, words]
+    · exact h
+    · exact h
+
+theorem checksumComp_eq (c v : Nat) : Model.checksumComp c v = comp c v := rfl
+
+theorem baseOffsets_eq : Model.checksumBaseOffsets = checksumBaseOffsets := rfl
+
+/-- the word loop of `pgChecksumBlock` from word number `i` on -/
+def stepFrom : Nat → List Nat → List Nat → List Nat
+  | _, sums, [] => sums
+  | i, sums, w :: ws => stepFrom (i + 1) (Model.pgSumsStep sums (i, w)) ws
+
+theorem foldl_zip_range' (ws : List Nat) : ∀ (i : Nat) (sums : List Nat),
+    ((List.range' i ws.length).zip ws).foldl Model.pgSumsStep sums = stepFrom i sums ws := by
+  induction ws with
+  | nil => intro i sums; rfl
+  | cons w ws ih =>
+    intro i sums
+    simp only [List.length_cons, List.range'_succ, List.zip_cons_cons, List.foldl_cons, stepFrom]
+    exact ih _ _
+
+theorem stepFrom_length (ws : List Nat) : ∀ (i : Nat) (sums : List Nat), (stepFrom i sums ws).length = sums.length := by
+  induction ws with
+  | nil => intro i sums; rfl
+  | cons w ws ih =>
+    intro i sums
+    simp only [stepFrom]
+    rw [ih]
+    simp only [Model.pgSumsStep, List.length_set]
+
+theorem stepFrom_append (a b : List Nat) : ∀ (i : Nat) (sums : List Nat),
+    stepFrom i sums (a ++ b) = stepFrom (i + a.length) (stepFrom i sums a) b := by
+  induction a with
+  | nil => intro i sums; rfl
+  | cons w ws ih =>
+    intro i sums
+    simp only [List.cons_append, stepFrom, List.length_cons]
+    rw [ih]
+    have : i + 1 + ws.length = i + (ws.length + 1) := by omega
+    rw [this]
+
+/-- inside one row of 32 words: the words `r`, taken from word number `32k + |A|` on, are mixed into the partial sums
+`mid` that follow the first `|A|` ones -/
+theorem stepFrom_mid (k : Nat) (r : List Nat) : ∀ (mid A B : List Nat), mid.length = r.length → A.length + r.length ≤ 32 →
+    stepFrom (32 * k + A.length) (A ++ mid ++ B) r = A ++ List.zipWith comp mid r ++ B := by
+  induction r with
+  | nil =>
+    intro mid A B hm _
+    have : mid = [] := List.eq_nil_of_length_eq_zero hm
+    subst this
+    rfl
+  | cons w ws ih =>
+    intro mid A B hm hA
+    match mid, hm with
+    | m :: ms, hm =>
+      have hms : ms.length = ws.length := by simpa using hm
+      simp only [List.length_cons] at hA
+      have hidx : (32 * k + A.length) % 32 = A.length := by omega
+      have hstep : Model.pgSumsStep (A ++ m :: ms ++ B) (32 * k + A.length, w) =
+          (A ++ [comp m w]) ++ ms ++ B := by
+        unfold Model.pgSumsStep
+        simp only [hidx]
+        have hg : (A ++ m :: ms ++ B).getD A.length 0 = m := by
+          simp [List.getD_eq_getElem?_getD, List.append_assoc]
+        rw [hg, checksumComp_eq]
+        simp [List.append_assoc, List.set_append]
+      simp only [stepFrom]
+      rw [hstep]
+      have := ih ms (A ++ [comp m w]) B hms (by simp only [List.length_append, List.length_cons, List.length_nil]; omega)
+      simp only [List.length_append, List.length_cons, List.length_nil] at this
+      have e : 32 * k + A.length + 1 = 32 * k + (A.length + (0 + 1)) := by omega
+      rw [e, this]
+      simp [List.append_assoc]
+
+/-- a whole row: the 32 words of row `k` are mixed into the 32 partial sums, column by column -/
+theorem stepFrom_row (k : Nat) (sums row : List Nat) (hs : sums.length = 32) (hr : row.length = 32) :
+    stepFrom (32 * k) sums row = round sums row := by
+  have := stepFrom_mid k row sums [] [] (by omega) (by simp only [List.length_nil]; omega)
+  simpa [round] using this
+
+theorem round_length (sums row : List Nat) (hs : sums.length = 32) (hr : row.length = 32) :
+    (round sums row).length = 32 := by
+  simp only [round, List.length_zipWith, hs, hr, Nat.min_self]
+
+/-- the word loop over whole rows is the fold of `round` over the rows -/
+theorem stepFrom_rows : ∀ (fuel : Nat) (ws : List Nat) (k : Nat) (sums : List Nat), sums.length = 32 →
+    ws.length ≤ fuel → ws.length % 32 = 0 → stepFrom (32 * k) sums ws = (rowsFuel fuel ws).foldl round sums := by
+  intro fuel
+  induction fuel with
+  | zero =>
+    intro ws k sums _ hf _
+    have : ws = [] := List.eq_nil_of_length_eq_zero (by omega)
+    subst this
+    rfl
+  | succ fuel ih =>
+    intro ws k sums hs hf hm
+    unfold rowsFuel
+    by_cases hlt : ws.length < nSums
+    · have : ws = [] := List.eq_nil_of_length_eq_zero (by simp only [nSums] at hlt; omega)
+      subst this
+      simp only [hlt, if_true]
+      rfl
+    · simp only [hlt, if_false, List.foldl_cons]
+      simp only [nSums] at hlt ⊢
+      have hsplit : ws = ws.take 32 ++ ws.drop 32 := (List.take_append_drop 32 ws).symm
+      have htl : (ws.take 32).length = 32 := by simp only [List.length_take]; omega
+      have hdl : (ws.drop 32).length = ws.length - 32 := List.length_drop
+      conv => lhs; rw [hsplit]
+      rw [stepFrom_append, htl, stepFrom_row k sums _ hs htl]
+      have e : 32 * k + 32 = 32 * (k + 1) := by omega
+      rw [e]
+      exact ih (ws.drop 32) (k + 1) _ (round_length sums _ hs htl) (by omega) (by omega)
+
+theorem zeroRound_eq (sums : List Nat) (hs : sums.length = 32) : Model.zeroRound sums = round sums zeroRow := by
+  have gen : ∀ l : List Nat, l.map (Model.checksumComp · 0) = List.zipWith comp l (List.replicate l.length 0) := by
+    intro l
+    induction l with
+    | nil => rfl
+    | cons a l ih => simp only [List.map_cons, List.length_cons, List.replicate_succ, List.zipWith_cons_cons, ih, checksumComp_eq]
+  unfold Model.zeroRound round zeroRow
+  rw [gen, hs]
+  rfl
+
+theorem zeroRound_length (sums : List Nat) : (Model.zeroRound sums).length = sums.length := by
+  simp only [Model.zeroRound, List.length_map]
+
+theorem pageCopy_eq_clear (page : Bytes) (hlen : page.length = 8192) : Model.pageCopy page = clearChecksumField page := by
+  unfold Model.pageCopy clearChecksumField
+  have h1 : page.take 8192 = page := List.take_of_length_le (by omega)
+  have h2 : zeros (8192 - page.length) = [] := by rw [hlen]; rfl
+  simp only [h1, h2, List.append_nil]
+
+/-- `pgChecksumBlock` of the repaired code on 8192 bytes: `pg_checksum_block` of the data with bytes 8..9 cleared,
+xor the block number, `% 65535 + 1` -/
+theorem pgChecksumBlock_eq (c : Bytes) (bn : Nat) (hlen : c.length = 8192) :
+    Model.pgChecksumBlock c bn = pgChecksumPage c bn := by
+  have hc : (clearChecksumField c).length = 8192 := by rw [clearChecksumField_length c (by omega)]; exact hlen
+  have hw : (words (clearChecksumField c)).length = 2048 := by
+    have : ∀ bs : Bytes, (Model.words32 bs).length = bs.length / 4 := by
+      intro bs
+      induction bs using Model.words32.induct with
+      | case1 a b c d rest ih => simp only [Model.words32, List.length_cons, ih]; omega
+      | case2 bs h =>
+        have : bs.length < 4 := by
+          match bs, h with
+          | [], _ => simp
+          | [_], _ => simp
+          | [_, _], _ => simp
+          | [_, _, _], _ => simp
+          | a :: b :: c :: d :: rest, h => exact absurd rfl (h a b c d rest)
+        rw [Model.words32]
+        · simp; omega
+        · exact h
+    rw [← words32_eq, this, hc]
+  unfold Model.pgChecksumBlock pgChecksumPage pgChecksumBlock
+  have h9 : c.length > 9 := by omega
+  simp only [h9, if_true]
+  have hcl : c.take 8 ++ [0, 0] ++ c.drop 10 = clearChecksumField c := rfl
+  rw [hcl, words32_eq, List.range_eq_range', foldl_zip_range', baseOffsets_eq]
+  have hb : checksumBaseOffsets.length = 32 := rfl
+  have hS : (stepFrom 0 checksumBaseOffsets (words (clearChecksumField c))).length = 32 := by rw [stepFrom_length]; exact hb
+  have hrows : stepFrom 0 checksumBaseOffsets (words (clearChecksumField c)) =
+      (rows (words (clearChecksumField c))).foldl round checksumBaseOffsets := by
+    have := stepFrom_rows (words (clearChecksumField c)).length (words (clearChecksumField c)) 0 checksumBaseOffsets hb
+      (Nat.le_refl _) (by rw [hw])
+    simpa [rows] using this
+  rw [zeroRound_eq _ hS, zeroRound_eq _ (round_length _ _ hS rfl), hrows]
+  omega
+
+/-- **The repaired `computePageChecksum` is PostgreSQL's `pg_checksum_page`**: for EVERY 8192-byte page and every
+block number (uint32 wrap-around of the products included: `Model.mask32`) -/
+theorem computePageChecksum_eq_pg (page : Bytes) (bn : Nat) (hlen : page.length = 8192) :
+    Model.computePageChecksum page bn = pgChecksumPage page bn := by
+  unfold Model.computePageChecksum
+  rw [pageCopy_eq_clear page hlen]
+  have hc : (clearChecksumField page).length = 8192 := by rw [clearChecksumField_length page (by omega)]; exact hlen
+  rw [pgChecksumBlock_eq _ bn hc]
+  unfold pgChecksumPage
+  have : clearChecksumField (clearChecksumField page) = clearChecksumField page :=
+    clearChecksumField_field page 0 0 (by omega)
+  rw [this]
+
+/-! ### known values
+
+The empty heap page as `PageInit` writes it (pd_lower 24, pd_upper = pd_special = 8192, pd_pagesize_version 0x2004,
+everything else zero) has `pg_checksum_page` 0x6560, 0x655F, 0x655D as block 0, 1, 7 (values computed independently by
+two reviews, REVIEW.md / REVIEW2.md item 7): a check of the base-offset table and of the algorithm's structure. -/
+
+def emptyHeapPage : Bytes := zeros 12 ++ [24, 0, 0, 32, 0, 32, 4, 32] ++ zeros 8172
+
+set_option maxRecDepth 100000 in
+theorem emptyHeapPage_checksums :
+    pgChecksumPage emptyHeapPage 0 = 0x6560 ∧ pgChecksumPage emptyHeapPage 1 = 0x655F ∧
+    pgChecksumPage emptyHeapPage 7 = 0x655D := by decide +kernel
+
+/-! ### the pre-fix function and the witness of the (repaired) finding `C19-checksum-not-postgres` -/
+
+namespace Orig
+
+/-- checksum.go:checksumComp before fix 11 -/
+def checksumComp (checksum value : Nat) : Nat :=
+  let lo := value &&& 0xFFFF
+  let hi := value >>> 16
+  let shift := checksum &&& 0x1F
+  let c := if shift > 0 then Model.mask32 ((checksum >>> shift) ||| Model.mask32 (checksum <<< (32 - shift))) else checksum
+  let c := c ^^^ lo
+  c ^^^ Model.mask32 (hi <<< 1)
+
+def fold16 (c : Nat) : Nat := ((c >>> 16) ^^^ (c &&& 0xFFFF)) % 65536
+
+/-- checksum.go:computePageChecksum before fix 11: a rotate/xor fold over the words, `^ blockNumber`, folded to 16 bits -/
+def computePageChecksum (page : Bytes) (blockNumber : Nat) : Nat :=
+  let c := (Model.words32 (Model.pageCopy page)).foldl checksumComp 0
+  fold16 (c ^^^ blockNumber)
+
+end Orig
 
 /-- An empty heap page as `PageInit` writes it (pd_lower 24, pd_upper = pd_special = 8192, pd_pagesize_version 0x2004),
 stored `pd_checksum` 0, with the bytes 78 48 00 00 at the very end (inside the free space of the page). -/
@@ -56,7 +294,7 @@ theorem witnessPage_upper : pdUpper witnessPage = 8192 := by decide +kernel
 theorem witnessPage_stored : pdChecksum witnessPage = 0 := by decide +kernel
 
 set_option maxRecDepth 100000 in
-/-- the tool's own function gives 0 for the witness page as block 0 -/
-theorem witnessPage_tool : Model.computePageChecksum witnessPage 0 = 0 := by decide +kernel
+/-- the pre-fix function gave 0 for the witness page as block 0 -/
+theorem witnessPage_tool_orig : Orig.computePageChecksum witnessPage 0 = 0 := by decide +kernel
 
 end PgVerif.Proofs.PgChecksum
